@@ -267,3 +267,29 @@ Qed.
 Example hash_ex : string_hash [83; 89; 83; 79; 80] = string_hash [115; 121; 115; 111; 112; 0; 1; 2] /\
                   string_hash [83; 89; 83; 79; 80] = 1202484463 /\ string_hash_bits [83; 89; 83; 79; 80] = 29935.
 Proof. vm_compute. repeat split. Qed.
+
+(* the DBCS-aware variants upper-case ASCII bytes except in trail position *)
+Fixpoint dbcs_upper (l : list Z) (trail : bool) : list Z :=
+  match l with
+  | [] => []
+  | c :: r => if trail then c :: dbcs_upper r false
+              else if c <? 128 then upper_spec c :: dbcs_upper r false else c :: dbcs_upper r true
+  end.
+Lemma fnv1a32_dbcs_spec : forall l tr h, fnv1a32_dbcscase l tr h = fnv1a_spec 32 16777619 h (dbcs_upper (cprefix l) tr).
+Proof.
+  induction l as [|c l IH]; intros tr h; [reflexivity|]. cbn [fnv1a32_dbcscase cprefix].
+  destruct (c =? 0); [reflexivity|]. cbn [dbcs_upper]. destruct tr; [rewrite IH; reflexivity|].
+  destruct (c <? 128); rewrite IH; reflexivity.
+Qed.
+Lemma fnv1a64_dbcs_spec : forall l tr h, fnv1a64_dbcscase l tr h = fnv1a_spec 64 1099511628211 h (dbcs_upper (cprefix l) tr).
+Proof.
+  induction l as [|c l IH]; intros tr h; [reflexivity|]. cbn [fnv1a64_dbcscase cprefix].
+  destruct (c =? 0); [reflexivity|]. cbn [dbcs_upper]. destruct tr; [rewrite IH; reflexivity|].
+  destruct (c <? 128); rewrite IH; reflexivity.
+Qed.
+Lemma hash_dbcs l h :
+  fnv1a32_dbcscase l false h = fnv1a_spec 32 16777619 h (dbcs_upper (cprefix l) false) /\
+  fnv1a64_dbcscase l false h = fnv1a_spec 64 1099511628211 h (dbcs_upper (cprefix l) false).
+Proof. split; [apply fnv1a32_dbcs_spec|apply fnv1a64_dbcs_spec]. Qed.
+Example hash_dbcs_ex : dbcs_upper [97; 164; 97; 98] false = [65; 164; 97; 66].
+Proof. vm_compute. reflexivity. Qed.
